@@ -354,8 +354,13 @@ def rule_extend(toks):
 
 def rule_itermut(toks):
     """R2: `for p in X.iter_mut() {` → index loop over the same container in the same order"""
-    return rewrite(toks, "for $p:ident in $X:chain.iter_mut() {",
-                   "let mut vk: usize = 0; while vk < $X.len() { let ghost vpre = $X@; let $p = &mut $X[vk]; vk += 1;")
+    toks, n1 = rewrite(toks, "for $p:ident in $X:chain.iter_mut().take($n) {",
+                       "let mut vk: usize = 0; while vk < $X.len() && vk < $n { let ghost vpre = $X@; let $p = &mut $X[vk]; vk += 1;")
+    toks, n2 = rewrite(toks, "for $p:ident in $X:chain.iter_mut().skip($n) {",
+                       "let mut vk: usize = $n; while vk < $X.len() { let ghost vpre = $X@; let $p = &mut $X[vk]; vk += 1;")
+    toks, n3 = rewrite(toks, "for $p:ident in $X:chain.iter_mut() {",
+                       "let mut vk: usize = 0; while vk < $X.len() { let ghost vpre = $X@; let $p = &mut $X[vk]; vk += 1;")
+    return toks, n1 + n2 + n3
 
 
 def rule_any(toks):
